@@ -509,11 +509,14 @@ impl<H: DnsHandle> DnssecDnsHandle<H> {
 
         // if the DS records are not empty and they also have no supported algorithms, then this is INSECURE
         // for secure DS records the BOGUS check happens after DNSKEYs are evaluated against the DS
+        // (a set in which no DS record is secure or insecure says nothing: `all` is true for it)
         if ds_records
             .iter()
             .filter(|ds| ds.proof.is_secure() || ds.proof.is_insecure())
             .all(|ds| !ds.data.algorithm().is_supported() || !ds.data.digest_type().is_supported())
-            && !ds_records.is_empty()
+            && ds_records
+                .iter()
+                .any(|ds| ds.proof.is_secure() || ds.proof.is_insecure())
         {
             debug!(
                 "all dnskeys use unsupported algorithms and there are no supported DS records in the parent zone"
@@ -684,12 +687,15 @@ impl<H: DnsHandle> DnssecDnsHandle<H> {
                 if ds_message
                     .answers
                     .iter()
-                    .filter(|r| r.record_type() == RecordType::DS)
+                    .filter(|r| r.record_type() == RecordType::DS && r.name == zone)
                     .any(|r| r.proof.is_secure()) =>
             {
                 // This is a secure DS RRset.
+                // Only the DS RRset of the zone asked for counts: the DS RRset of another
+                // delegation riding along in the answer says nothing about this zone.
                 let all_records = mem::take(&mut ds_message.answers)
                     .into_iter()
+                    .filter(|r| r.name == zone)
                     .filter_map(|r| {
                         r.map(|data| match data {
                             RData::DNSSEC(DNSSECRData::DS(ds)) => Some(ds),
